@@ -51,7 +51,7 @@ func routeRPC(pkg string, idx int, name, verb, path string, hasCfg bool, nQuery 
 
 var routeBases = []string{"", "/api", "api", "/api/", "/api/v1", "/", "/a//", "api/v2/"}
 var routeNames = []string{"Get", "GetUserByID", "V2List", "ListHTTPRoutes", "A", "CreateX9", "DoIt"}
-var routePathShapes = []string{"//dbl%d/{id}", "/r%d", "r%d", "/r%d/{id}", "/{id}/r%d", "/r%d/{id}/{name}", "/a/{id}/r%d/{name}/{n}", "/r%d/", "r%d/{id}/x", "/r%d/{user_id}/{post_id}"}
+var routePathShapes = []string{"/r%d", "r%d", "/r%d/{id}", "/w%d/{id}/r%d", "/r%d/{id}/{name}", "/a/{id}/r%d/{name}/{n}", "/r%d/", "r%d/{id}/x", "/r%d/{user_id}/{post_id}"}
 var routeVerbs = []string{"GET", "POST", "PUT", "DELETE", "PATCH"}
 
 // RouteCatalogue: one request per base-path variant; each service exercises every config mode,
@@ -66,7 +66,12 @@ func RouteCatalogue() []*Request {
 		idx := 0
 		add := func(name, verb, path string, hasCfg bool, nq int) {
 			idx++
-			if strings.Contains(path, "%d") {
+			if base == "" && path != "" && !strings.HasPrefix(path, "/") {
+				return // registration panics without a leading slash: see NoSlashRequest
+			}
+			if strings.Count(path, "%d") == 2 {
+				path = fmt.Sprintf(path, idx, idx)
+			} else if strings.Contains(path, "%d") {
 				path = fmt.Sprintf(path, idx)
 			}
 			meth, msg := routeRPC(pkg, idx, fmt.Sprintf("%s%d", name, idx), verb, path, hasCfg, nq, []string{"string", "int64", "uint32", "bool"})
@@ -117,6 +122,35 @@ func RouteCatalogue() []*Request {
 		out = append(out, r)
 	}
 	return out
+}
+
+// DoubleSlashRequest: method paths starting with "//" (accepted by every plugin).
+func DoubleSlashRequest() *Request {
+	pkg := "rtdbl.v1"
+	f := &File{Messages: []*Message{M("Resp", F("ok", 1, "bool")), M("Req", F("id", 1, "string"), F("note", 2, "string"))}}
+	f.Services = []*Service{
+		Svc("Dbl", "/api", RPC("One", pkg+".Req", pkg+".Resp", "POST", "//dbl/{id}"), RPC("Two", pkg+".Req", pkg+".Resp", "PUT", "/ok/{id}")),
+		Svc("DblNoBase", "", RPC("Three", pkg+".Req", pkg+".Resp", "GET", "//x/{id}")),
+	}
+	f.Messages = append(f.Messages, M("GReq", F("id", 1, "string")))
+	f.Services[1].Methods[0].In = pkg + ".GReq"
+	r := OneFile("rtdbl", pkg, f)
+	r.Tags = []string{"routes", "double-slash"}
+	return r
+}
+
+// NoSlashRequest: method paths without a leading slash and no base path; a variable-first route.
+func NoSlashRequest() *Request {
+	pkg := "rtnoslash.v1"
+	f := &File{Messages: []*Message{M("Resp", F("ok", 1, "bool")), M("Req", F("id", 1, "string"), F("note", 2, "string")), M("GReq", F("id", 1, "string"))}}
+	f.Services = []*Service{
+		Svc("Bare", "", RPC("One", pkg+".Req", pkg+".Resp", "POST", "bare"), RPC("Two", pkg+".Req", pkg+".Resp", "PUT", "/ok/{id}")),
+		Svc("Hosty", "", RPC("Three", pkg+".GReq", pkg+".Resp", "GET", "x/{id}"), RPC("Four", pkg+".Req", pkg+".Resp", "PUT", "/fine/{id}")),
+		Svc("VarFirst", "/vf", RPC("Five", pkg+".GReq", pkg+".Resp", "GET", "/{id}/tail"), RPC("Six", pkg+".GReq", pkg+".Resp", "DELETE", "/{id}")),
+	}
+	r := OneFile("rtnoslash", pkg, f)
+	r.Tags = []string{"routes", "no-slash"}
+	return r
 }
 
 // SharedRouteRequest: two RPCs on one (verb, path) — the OpenAPI document loses one of them.
